@@ -153,6 +153,39 @@ def in_debug_assert(x):
     return False
 
 
+REQUEST_TYPES = re.compile(r"http::(uri::)?Uri|http::(request::)?Request|http::request::Parts|HeaderMap|HeaderValue|http::(method::)?Method|http::(version::)?Version|"
+                           r"Authority|ExecuteRequest|&(mut )?str|std::string::String|PathAndQuery|http::uri::Scheme|\[u8\]|bytes::Bytes")
+
+
+def _assert_on_request_data(f, bb):
+    """The assertion guarding the panic block `bb` tests something derived from a request-carrying parameter."""
+    seen = set()
+    work = [bb]
+    conds = []
+    while work and len(seen) < 64:
+        b = work.pop()
+        if b in seen:
+            continue
+        seen.add(b)
+        for p in f.pred[b]:
+            t = f.term(p)
+            if t["k"] == "switch":
+                if t.get("oty") == "bool" and not any(e.endswith("debug_assertions") or "cfg" in e for e in (t.get("x") or [])):
+                    conds.append((p, t["o"]))
+            else:
+                work.append(p)
+    for (p, o) in conds:
+        for r in f.roots(o, max_nodes=400):
+            if r.kind == "arg":
+                ty = f.locals[r.index] if getattr(r, "index", None) is not None and r.index < len(f.locals) else ""
+                fields = getattr(r, "fields", ()) or ()
+                if REQUEST_TYPES.search(ty) and not (r.index == 1 and "self" in (f.local_name(1) or "") and fields):
+                    return True
+            if r.kind == "unknown":
+                return True
+    return not conds
+
+
 def third_party_expansion(x):
     """Expansion of a macro defined outside std and outside this crate (tracing, pin_project, thiserror, ouroboros...)."""
     for e in (x.get("x") or []):
@@ -193,9 +226,9 @@ def auto_discharge(facts, s):
         return ("third-party-macro", "inside an expansion of a %s macro: independent of request values (listed once per macro)" % s.noise)
     if s.kind == "assert-Overflow":
         return ("debug-overflow-check", "integer overflow check: compiled only with overflow-checks (debug profile); wrapping in release builds - not a release-profile panic (assumption, listed)")
-    if in_debug_assert(t):
-        return ("debug-assertion", "inside debug_assert!: compiled out when cfg(debug_assertions) is off; the property is decided for the release profile and the "
-                "assertion is taken as the maintainers' statement of an internal invariant (assumption, listed in the evidence)")
+    if in_debug_assert(t) and not _assert_on_request_data(f, s.bb):
+        return ("debug-assertion", "debug_assert! over internal state only (its condition has no root in a request-carrying parameter: URI, request, headers, strings): "
+                "taken as the maintainers' statement of an internal invariant (assumption, listed in the evidence); an assertion over request data is *not* discharged this way")
     if t["k"] != "call":
         return None
     c = CallSite(f, s.bb, t)
